@@ -448,6 +448,8 @@ class JSON(Term):
             return self._get_list_sql(value, **kwargs)
         if isinstance(value, str):
             return self._get_str_sql(value, **kwargs)
+        if value is None or isinstance(value, bool):
+            return json.dumps(value)
         return str(value)
 
     def _get_dict_sql(self, value: dict, **kwargs: Any) -> str:
@@ -466,10 +468,19 @@ class JSON(Term):
 
     @staticmethod
     def _get_str_sql(value: str, quote_char: str = '"', **kwargs: Any) -> str:
+        if quote_char == '"':
+            # JSON string syntax: escapes quotes, backslashes and control characters
+            return json.dumps(value, ensure_ascii=False)
         return format_quotes(value, quote_char)
 
     def get_sql(self, ctx: SqlContext) -> str:
-        sql = format_quotes(self._recursive_get_sql(self.value), ctx.secondary_quote_char)
+        quote_char = ctx.secondary_quote_char or ""
+        json_sql = self._recursive_get_sql(self.value)
+        if quote_char:
+            json_sql = json_sql.replace(quote_char, quote_char * 2)
+        if ctx.dialect == Dialects.MYSQL:
+            json_sql = json_sql.replace("\\", "\\\\")
+        sql = format_quotes(json_sql, quote_char)
         return format_alias_sql(sql, self.alias, ctx)
 
     def get_json_value(self, key_or_index: str | int) -> "BasicCriterion":
